@@ -12,6 +12,7 @@
   mask-not-scaled  inside a solver a masked vector is multiplied / divided only while Factor.__mul__ sanitises scalar products
                    (two cooperating sites: 0*(-inf) = NaN otherwise)
   inf-guard        the non-scalar path of Factor.__sub__ selects on infinities of the subtrahend
+  division-guard   factor / factor clears the cells with an empty denominator by a test on the denominator (0/0 is NaN, not inf)
                    ((-inf) - (-inf) is NaN for every structural zero otherwise)
 Not decided: exact zero versus the 1e-100 floor Factor.log introduces in mle (tolerance), NaN-freedom, synthetic records.
 """
@@ -133,8 +134,91 @@ class CliqueArg(FactAnalysis):
         self.ctx = ctx
         self.never_none = set(never_none)
         self.sites = 0
+        self.reported = set()
 
-    refine = Mask.refine
+    def refine(self, st, test, truth):
+        st2 = Mask.refine(self, st, test, truth)
+        if st2 is None:
+            return None
+        # inside `for z in self.structural_zeros`: `if not any(set(z) <= m for m in <sets of L>)`: on the False side the zero clique is
+        # contained in ONE clique already in the list L - it is represented; on the True side the code is expected to append it
+        cov = self.coverage_test(test, st2)
+        if cov is not None:
+            kind, lst, neg = cov
+            covered_side = (truth != neg)       # test true (after stripping `not`) means covered
+            if kind == 'single' and covered_side:
+                st2.facts.add(('HASZ', lst))
+            if kind == 'union' and id(test) not in self.reported:
+                self.reported.add(id(test))
+                self.ctx.ob('zero-cliques', self.fi, test, False,
+                            'a zero clique is skipped when its attributes are merely all measured somewhere (`%s`): it must be contained in '
+                            'ONE clique of the model, otherwise `combine` silently drops its mask' % U(test)[:120])
+        return st2
+
+    def coverage_test(self, test, st):
+        from ..normalise import Defs, expand
+        t, neg = test, False
+        while isinstance(t, ast.UnaryOp) and isinstance(t.op, ast.Not):
+            t, neg = t.operand, not neg
+        zvars = {f[1] for f in st.facts if f[0] == 'ZVAR'}
+        if not zvars:
+            return None
+        defs = Defs(self.fi.body)
+
+        def is_zset(e):
+            return (isinstance(e, ast.Call) and U(e.func) in ('set', 'frozenset') and len(e.args) == 1 and U(e.args[0]) in zvars)
+        # any(set(z) <= m for m in M)
+        if isinstance(t, ast.Call) and U(t.func) == 'any' and len(t.args) == 1 and isinstance(t.args[0], ast.GeneratorExp) \
+                and len(t.args[0].generators) == 1 and not t.args[0].generators[0].ifs:
+            g = t.args[0].generators[0]
+            e = t.args[0].elt
+            mvar = U(g.target)
+            sub = None
+            if isinstance(e, ast.Compare) and len(e.ops) == 1 and isinstance(e.ops[0], ast.LtE) and is_zset(e.left):
+                sub = e.comparators[0]
+            elif isinstance(e, ast.Call) and isinstance(e.func, ast.Attribute) and e.func.attr == 'issubset' and is_zset(e.func.value) and len(e.args) == 1:
+                sub = e.args[0]
+            if sub is None:
+                return None
+            src = expand(g.iter, defs)
+            if isinstance(src, ast.Name) and isinstance(defs.single(src.id), (ast.ListComp, ast.GeneratorExp)):
+                src = defs.single(src.id)
+            lst = None
+            if U(sub) == mvar and isinstance(src, ast.ListComp) and len(src.generators) == 1 and not src.generators[0].ifs \
+                    and U(src.elt) == 'set(%s)' % U(src.generators[0].target):
+                lst = U(src.generators[0].iter)            # m ranges over [set(c) for c in L]
+            elif U(sub) == 'set(%s)' % mvar and isinstance(src, ast.Name):
+                lst = src.id                                # set(z) <= set(c) for c in L
+            if lst is not None:
+                return ('single', self.place(ast.Name(id=lst, ctx=ast.Load()), st) or lst, neg)
+            return None
+        # set(z) <= U  with U = set().union(*L) / set of all measured attributes
+        if isinstance(t, ast.Compare) and len(t.ops) == 1 and isinstance(t.ops[0], ast.LtE) and is_zset(t.left):
+            u = expand(t.comparators[0], defs)
+            if isinstance(u, ast.Call) and isinstance(u.func, ast.Attribute) and u.func.attr == 'union' and any(isinstance(a, ast.Starred) for a in u.args):
+                return ('union', None, neg)
+        return None
+
+    def on_bind(self, st, target, it, s):
+        st = super().on_bind(st, target, it, s)
+        if isinstance(target, ast.Name) and self.mentions_zeros(it):
+            st.facts.add(('ZVAR', target.id))
+        return st
+
+    def loop(self, s, st):
+        """a loop over the zero specification establishes HASZ vacuously when the specification is empty"""
+        if isinstance(s, ast.For) and self.mentions_zeros(s.iter) and isinstance(s.target, ast.Name):
+            body_in = self.on_bind(self.copy(st), s.target, s.iter, s)
+            self._loops.append({'break': [], 'continue': []})
+            out = self.block(s.body, body_in)
+            self._loops.pop()
+            if out is not None:
+                gained = {f for f in out.facts if f[0] == 'HASZ'} - st.facts
+                res = super().loop(s, st)
+                if res is not None:
+                    res.facts |= gained
+                return res
+        return super().loop(s, st)
 
     def mentions_zeros(self, e):
         return any(U(n) == ZEROS for n in ast.walk(e))
@@ -142,7 +226,9 @@ class CliqueArg(FactAnalysis):
     def visit_expr(self, st, e, stmt):
         for c in calls_in(e):
             f = c.func
-            if isinstance(f, ast.Attribute) and f.attr in ('extend', 'append') and c.args and self.mentions_zeros(c.args[0]):
+            zvars = {x[1] for x in st.facts if x[0] == 'ZVAR'}
+            if isinstance(f, ast.Attribute) and f.attr in ('extend', 'append') and c.args and \
+                    (self.mentions_zeros(c.args[0]) or U(c.args[0]) in zvars):
                 p = self.place(f.value, st)
                 if p:
                     st.facts.add(('HASZ', p))
@@ -197,6 +283,7 @@ def run(ctx):
     solvers = [s for s in find_solvers(repo, INF, 'FactoredInference', setup) if s.name not in ('estimate', 'infer')]
     nn = never_none_attrs(repo, INF, 'FactoredInference')
     ctx.floor('solvers discovered', len(solvers), 3)
+    check_division_guard(ctx)
 
     # ---- setup: mask merged on every path, zero cliques part of the model ------------------
     ctx.analysed(setup)
@@ -337,3 +424,49 @@ def check_inf_guard(ctx):
            'factor subtraction must select on infinities of the subtrahend (np.where(.. == -inf ..), isinf mask or '
            'nan_to_num): (-inf) - (-inf) is NaN for every structural zero',
            construct=U(guards[0]) if guards else 'def __sub__ (no infinity-aware selection on the non-scalar path)')
+
+
+def check_division_guard(ctx):
+    """Factor / Factor (used for conditionals: marginal / separator marginal): cells whose DENOMINATOR is empty are 0/0; they must
+    be cleared by a test on the denominator (or by a NaN-aware test on the quotient) - `isinf(quotient)` alone misses 0/0 = NaN."""
+    from ..engines.blockeval import BlockEval, T
+    from ..normalise import single_exit
+    from ..srcmodel import clone
+    fi = ctx.repo.nfunc(FACTOR, 'Factor.__truediv__')
+    ctx.analysed(fi)
+    other = fi.params[1]
+    tail = [s for s in fi.body if not (isinstance(s, ast.If) and 'isscalar' in U(s.test))]
+    quot = None          # (name, numerator, denominator, how)
+    for s in ast.walk(ast.Module(body=tail, type_ignores=[])):
+        if isinstance(s, ast.Assign) and len(s.targets) == 1 and isinstance(s.targets[0], ast.Name):
+            v = s.value
+            if isinstance(v, ast.Call) and U(v.func) in ('np.divide', 'numpy.divide', 'np.true_divide') and len(v.args) >= 2:
+                quot = (s.targets[0].id, v.args[0], v.args[1], v, s)
+            elif isinstance(v, ast.BinOp) and isinstance(v.op, ast.Div):
+                quot = (s.targets[0].id, v.left, v.right, v, s)
+    if quot is None:
+        raise AnalysisError('Factor.__truediv__: the element-wise quotient of the non-scalar path was not found')
+    qn, num, den, qexpr, qstmt = quot
+    den_t = T(den)
+    cleared = []          # (stmt, verdict): True = clears every empty-denominator cell, False = recognisably insufficient
+    for s in ast.walk(ast.Module(body=tail, type_ignores=[])):
+        if isinstance(s, ast.Assign) and isinstance(s.targets[0], ast.Subscript) and U(s.targets[0].value) == qn and T(s.value) in ('0', '0.0'):
+            m = s.targets[0].slice
+            mt = T(m)
+            if mt in ('%s<=0' % den_t, '%s==0' % den_t, '~(%s>0)' % den_t, '%s<=0.0' % den_t, '%s==0.0' % den_t):
+                cleared.append((s, True))
+            elif mt in ('~np.isfinite(%s)' % qn, 'np.isnan(%s)|np.isinf(%s)' % (qn, qn), 'np.isinf(%s)|np.isnan(%s)' % (qn, qn), 'np.isnan(%s)' % qn):
+                cleared.append((s, True))
+            elif mt in ('np.isinf(%s)' % qn, 'np.isposinf(%s)' % qn, '%s==np.inf' % qn):
+                cleared.append((s, False))
+            else:
+                raise AnalysisError('Factor.__truediv__: unrecognised clearing mask `%s`' % U(m))
+    for c in calls_in(ast.Module(body=tail, type_ignores=[])):
+        if U(c.func) in ('np.nan_to_num', 'numpy.nan_to_num') and c.args and qn in {n.id for n in ast.walk(c.args[0]) if isinstance(n, ast.Name)}:
+            cleared.append((c, True))
+    ok = any(v for _, v in cleared)
+    where = (cleared[0][0] if cleared else qstmt)
+    ctx.ob('division-guard', fi, where, ok,
+           'cells of factor / factor with an empty denominator (0/0 for every structural zero of a separator) must be cleared by a test on '
+           'the denominator `%s` or by a NaN-aware test on the quotient; %s' % (U(den), 'found `%s`' % U(where)[:80] if cleared else 'no clearing found'),
+           construct='empty-denominator cells of Factor.__truediv__')
